@@ -252,9 +252,9 @@ func crashCases(tier string) []crashCase {
 		c int
 	}{{"empty", 0}, {"one", 1}, {"sixty", 60}, {"big", 3000}}
 	if tier != "thorough" {
-		sizes[3].c = 400
+		sizes[3].c = 200
 	}
-	small := []int{0, 1, 3}
+	small := []int{0, 1, 2}
 	mk := func(i int, tag string) *store.PersistedData { return mkSnapshot(tag, sizes[i].c) }
 	var cs []crashCase
 	for i := range sizes {
